@@ -144,6 +144,10 @@ pub enum Error {
     #[diagnostic(code(tx3::circular_definition))]
     CircularDefinition(String),
 
+    #[error("not supported yet: {0}")]
+    #[diagnostic(code(tx3::not_supported))]
+    NotSupported(String),
+
     #[error(transparent)]
     #[diagnostic(transparent)]
     NotInScope(#[from] NotInScopeError),
